@@ -816,6 +816,29 @@ func r07_7(c *RC) {
 			}
 			inLoop = append(inLoop, describe(ce.If.Cond))
 		}
+		// ... and what selects a failure return outside the loops is the
+		// hint-mandatory setting alone, never something computed from the
+		// source cache (how many cached users were tried, whether the source
+		// is known)
+		for _, ce := range controllingEdges(b) {
+			ib := ce.If.Block()
+			if reachesSelf(ib) {
+				continue // loop header exits were judged above
+			}
+			for _, k := range condVocab(ce.If.Cond, func(v ssa.Value) string {
+				if prm, ok := v.(*ssa.Parameter); ok {
+					if prm.Name() == "hintMandatory" {
+						return "hint-mandatory"
+					}
+					return "?parameter " + prm.Name()
+				}
+				return ""
+			}) {
+				if strings.HasPrefix(k, "?") {
+					inLoop = append(inLoop, "outside the loops: "+k[1:])
+				}
+			}
+		}
 		key := "failure-return-after-phases"
 		if len(inLoop) == 0 {
 			c.OKH(key, r.Pos(), "failure result returned outside every candidate loop")
@@ -905,8 +928,14 @@ func ruleSetUsersPublishes(c *RC) {
 					return
 				}
 				id := calleeID(cl)
-				if strings.HasSuffix(id, "proto.Equal") || id == "reflect.DeepEqual" {
-					protoEqual = true
+				if id == "reflect.DeepEqual" || strings.HasSuffix(id, "maps.EqualFunc") || strings.HasSuffix(id, "maps.Equal") {
+					for _, a := range cl.Common().Args {
+						for _, l := range Leaves(a, nil) {
+							if prm, ok := l.(*ssa.Parameter); ok && prm.Name() == "users" && fn == su {
+								protoEqual = true
+							}
+						}
+					}
 				}
 				if sc := cl.Common().StaticCallee(); sc != nil {
 					if strings.Contains(id, "appctlpb.User)") {
@@ -927,11 +956,10 @@ func ruleSetUsersPublishes(c *RC) {
 		}
 		switch {
 		case protoEqual:
-			c.OKH(key, r.Pos(), "a return without publication is guarded by a whole-message comparison")
-		case len(need) > 0 && len(missing) == 0:
-			c.OKH(key, r.Pos(), "a return without publication compares every field of the user message")
+			c.OKH(key, r.Pos(), "a return without publication is guarded by a comparison of the whole user map with the previous input")
 		default:
-			c.Bad(key, r.Pos(), "SetUsers can return without publishing the new users, and the comparison that allows it does not look at %v of the user message: a reload that changes only such a field keeps the previous generation, so a retired credential still authenticates", missing)
+			_ = missing
+			c.Undecided(key, r.Pos(), "SetUsers can return without publishing the new users. The only skip this check can accept is a whole-map comparison (reflect.DeepEqual / maps.EqualFunc with proto.Equal on the users argument itself); a hand-written comparison (per-user digests, 'every configured user is already compiled in', field-by-field tests) cannot be shown to notice every change - a removed user, a changed hashedPassword - and a reload it misses keeps a retired credential valid")
 		}
 	})
 }
